@@ -253,7 +253,10 @@ package errbase
 
 //@ spec func reasm(prefix string, mt MessageType, causeText string) string = mt == FullMessage ? prefix : (prefix == "" ? causeText : prefix + ": " + causeText)
 
+// the message type extractPrefix decides, named (deterministic function of the two texts)
+//@ spec func xpType(err error, cause error) MessageType
 //@ func extractPrefix
+//@   assumes result1 == xpType(err, cause)
 //@   props C01 C04 C02
 //@   requires err != nil && cause != nil
 //@   ensures result1 == Prefix || result1 == FullMessage
@@ -348,6 +351,8 @@ package errbase
 //@ method (*state).formatSimple
 //@   props C05 C09 C03
 //@   requires err != nil
+// C09: "this layer's text overrides its causes" is exactly extractPrefix's FULL_MESSAGE verdict
+//@   ensures[C09] result == (cause != nil && xpType(err, cause) == FullMessage)
 //@   assigns heap state.buf, heap state.headBuf, heap state.needNewline, heap state.needSpace, heap state.multiLine, heap state.notEmpty, heap state.hasDetail
 
 //@ method (*state).elideShortChildren
@@ -381,6 +386,8 @@ package errbase
 //@   ensures[C09] result == treeSize(err)
 //@   ensures[C09] self.entries[len(self.entries) - 1].err == err
 //@   ensures[C09] len(specialCases) == 0 && !typeis(err, SafeFormatter) && !typeis(err, Formatter) && !typeis(err, fmt.Formatter) && len(causes(err)) > 0 ==> (forall k int :: old(len(self.entries)) <= k && k < len(self.entries) - 1 ==> self.entries[k].elideShort)
+// ... and a foreign fmt.Formatter wrapper whose text overrides its cause elides the cause's short text too
+//@   ensures[C09] !typeis(err, SafeFormatter) && !typeis(err, Formatter) && typeis(err, fmt.Formatter) && cause1(err) != nil && xpType(err, cause1(err)) == FullMessage ==> (forall k int :: old(len(self.entries)) <= k && k < len(self.entries) - 1 ==> self.entries[k].elideShort)
 //@   requires[C06] wfEntries(self.entries)
 //@   ensures[C06] wfEntries(self.entries)
 //@   requires[C03] rsEntries(self.entries)
